@@ -133,8 +133,11 @@ class FileSpecHashes:
             pass
 
     def close(self):
-        with open(self.path, "w") as hashes_file:
+        # Write to a temporary file and rename it into place, so that the file
+        # is never left truncated if gwf is killed while writing it.
+        with open(self.path + ".tmp", "w") as hashes_file:
             json.dump(self.hashes, hashes_file)
+        os.replace(self.path + ".tmp", self.path)
 
     def __enter__(self):
         return self
